@@ -283,3 +283,7 @@ PLAN["C11"]["trusted_base"] = PLAN["C11"]["trusted_base"] + LIB_H11
 # C13 "TLS ALPN h2 ... select HTTP/2": the servers hand the wrapper what TLS negotiated
 PLAN["C13"]["units"] = PLAN["C13"]["units"] + [ATS + "run", TTS + "run"]
 PLAN["C13"]["trusted_base"] = PLAN["C13"]["trusted_base"] + LIB_IO
+# C08 "the stream is reset ... every waiting send returns": the StreamReset arm of _handle_events
+PLAN["C08"]["units"] = PLAN["C08"]["units"] + [HP + "_handle_events"]
+# C10 "compressed or not": the extension object a connection gets is made in Handshake.accept
+PLAN["C10"]["units"] = PLAN["C10"]["units"] + [WSM + "Handshake.accept"]
